@@ -1628,13 +1628,22 @@ func (e *ForExpr) Value(ctx *hcl.EvalContext) (cty.Value, hcl.Diagnostics) {
 			} else {
 				k := key.AsString()
 				if _, exists := vals[k]; exists {
+					// NOTE: we don't know what any marks might've represented
+					// up at the calling application layer, so we must avoid
+					// showing a key that was derived from a marked value in
+					// case the mark represents something important, such as
+					// a value being "sensitive".
+					detail := fmt.Sprintf(
+						"Two different items produced the key %q in this 'for' expression. If duplicates are expected, use the ellipsis (...) after the value expression to enable grouping by key.",
+						k,
+					)
+					if len(keyMarks) > 0 || len(collMarks) > 0 {
+						detail = "Two different items produced the same key in this 'for' expression. If duplicates are expected, use the ellipsis (...) after the value expression to enable grouping by key."
+					}
 					diags = append(diags, &hcl.Diagnostic{
-						Severity: hcl.DiagError,
-						Summary:  "Duplicate object key",
-						Detail: fmt.Sprintf(
-							"Two different items produced the key %q in this 'for' expression. If duplicates are expected, use the ellipsis (...) after the value expression to enable grouping by key.",
-							k,
-						),
+						Severity:    hcl.DiagError,
+						Summary:     "Duplicate object key",
+						Detail:      detail,
 						Subject:     e.KeyExpr.Range().Ptr(),
 						Context:     &e.SrcRange,
 						Expression:  e.KeyExpr,
